@@ -94,7 +94,11 @@ class Scope:
                 (self.orig if norm(v) == const else self.temp).append(w)
             self.orig_desc = "the constant %s (lexically last write)" % const
         self.orig_asts = {id(w.ast) for w in self.orig}
-        self.is_temp_scope = bool(self.temp) and (bool(self.orig) or bool(self.saves))
+        # A flag that is saved and overwritten but never written back is a broken
+        # scope; for the queues, reading them into a local and emptying them is a
+        # legitimate drain (the flush), so they need an ORIG-write to count.
+        flag = fld in ("_BATCH_WATCH", "_TRIGGER", "private.syncing", "attr.constant", "attr._mode")
+        self.is_temp_scope = bool(self.temp) and (bool(self.orig) or (flag and bool(self.saves)))
 
     def contains_orig(self, stmts) -> bool:
         for s in stmts:
